@@ -24,6 +24,7 @@ FAMILIES = {
     "reader": "harness.check_reader",
     "batch": "harness.check_batch",
     "compose": "harness.check_compose",
+    "inherit": "harness.check_inherit",
 }
 # property -> families whose judges print verdicts for it
 PROPS = {
@@ -44,6 +45,8 @@ PROPS = {
     "C16": ["reader"],
     "C17": ["batch"],
     "C01": ["formats", "compose"], "C02": ["formats", "compose"],
+    # beyond the listed properties (not in MANIFEST.json; evidence goes to build/)
+    "X01": ["inherit"],
 }
 EXPLAIN = {}
 
